@@ -48,6 +48,10 @@ REQUIRED = {
     "ref/face_area:nonconvex_face": 80, "ref/face_normals:nonconvex_face": 150, "ref/total_area:nonconvex_faces": 5,
     "coverage/ref:face_area_on_nonconvex_faces_star_shaped_from_vertex_mean": 60,
     "reuse": 15000,
+    "far": 60000, "far/face_normals": 1500, "far/vertex_normals:uniform": 1000, "far/vertex_normals:area": 1000, "far/vertex_normals:angle": 1000,
+    "far/face_area": 3000, "far/corner_angles": 6000, "far/cotangent": 4000, "far/cotan_weights": 1500, "far/angle_defects": 900,
+    "far/face_circumcenter": 2500, "far/triangle_aspect_ratio": 1800, "far/curvature_matrices": 2500, "far/border_normals": 1500,
+    "far/edge_length": 3000, "far/cell_volume": 400, "far/total_area": 60, "far/mean_edge_length": 150,
     "ref/triangle_aspect_ratio": 4000, "ref/face_near_border:dist=default": 4000, "ref/face_near_border:dist=1": 4000,
     "ref/face_near_border:dist=3": 4000, "ref/face_near_border:dist=6": 4000, "ref/border_normals": 3000,
     "ref/curvature_matrices": 1500, "ref/cell_faces_on_boundary": 800,
@@ -82,6 +86,11 @@ ASSUMPTIONS = [
     "connection: faces with three interior vertices) and rigid / scale / renumbering invariance - values on curved meshes are not judged; a "
     "connection object that cannot be built is C18's business (noted)",
     "mean_*(n=k) is read as the mean of the first min(k, count) elements ('early stopping')",
+    "far-from-the-origin pass: the input is the ROUNDED translated (or rotated + translated) coordinate array, offset = power of two x dyadic "
+    "direction, |offset| = 1e3..1e7 mesh sizes, and the reference is evaluated from those stored coordinates; differences of stored coordinates "
+    "are exact (Sterbenz) or correctly rounded, so every translation-invariant quantity has error <= C u cond(quantity) with C <= ~50, "
+    "independent of |offset|/size: judged at 2e-13 x the same conditioning factors as next to the origin (1e-9 there); positions (midpoints, "
+    "barycentres, circumcentres) at 16 eps max|coordinate| (x 1/sin(min angle) for circumcentres)",
 ]
 
 EPS = 2.220446049250313e-16
@@ -168,7 +177,7 @@ def cases(seed, tier):
         for i in range(n):
             d = {"gen": kind, "seed": rng.randrange(2 ** 31), "max_size": sizes[i % len(sizes)],
                  "vrows": vrows[k % 4], "irows": irows[(k // 4) % 3],
-                 "extreme_scale": (i % 4 == 3), "sample": i in (1, 2)}
+                 "extreme_scale": (i % 4 == 3), "sample": i in (1, 2), "far_exp": 3 + i % 5}
             if kind == "tri":
                 d["planar_pt"] = (i % 3 == 0)
             if kind == "poly":
@@ -182,10 +191,10 @@ def cases(seed, tier):
 
 
 # ----------------------------------------------------------------------------------------------- inputs
-def _surface_gate(R, tri):
+def _surface_gate(R, tri, far=False):
     if R.lmin <= 0 or not np.isfinite(R.maxabs):
         return False
-    if R.maxabs / R.lmin > 1e6:
+    if R.maxabs / R.lmin > 1e6 and not far:
         return False
     if R.tri_min_angle < math.radians(3.0):
         return False
@@ -358,6 +367,15 @@ def _failed(ctx):
     return ctx._c07_failed
 
 
+def _margin(ctx, op, err, tol):
+    """Far pass: how much of the tolerance the unchanged library uses (bucketed max error / tolerance, reported as notes)."""
+    with np.errstate(invalid="ignore", divide="ignore"):
+        r = np.where(tol > 0, err / np.where(tol > 0, tol, 1.0), np.where(err > 0, np.inf, 0.0))
+    m = float(np.nanmax(r)) if len(r) else 0.0
+    b = "<=1e-4" if m <= 1e-4 else "<=1e-3" if m <= 1e-3 else "<=1e-2" if m <= 1e-2 else "<=1e-1" if m <= 1e-1 else "<=1" if m <= 1 else ">1"
+    ctx.note("far_error_over_tolerance:%s:%s" % (op, b))
+
+
 def classify(got, exp, bad, judged):
     """Stable description of a disagreement pattern (computed from the values, no random content)."""
     if not np.all(np.isfinite(got[bad])):
@@ -414,6 +432,8 @@ def compare(ctx, monitor, op, got, exp, tol, judged=None, what="", **wit):
         err = np.max(err, axis=1)
     with np.errstate(invalid="ignore"):
         bad = judged & ~(err <= tol)
+    if monitor == "far":
+        _margin(ctx, op, err[judged], tol[judged])
     if not bad.any():
         return True
     _failed(ctx).add((monitor, op))
@@ -669,6 +689,8 @@ def judge_circumcentres(ctx, monitor, op, arr, tris, maxabs, K, rel=REL, pos=Non
         rc = geomq.circumradius(P[0], P[1], P[2])
         tol = rel * 10 * K * rc + (rel * 10 * K * maxabs if pos is None else pos * K)
         spread, off = geomq.circumcentre_residuals(X, P[0], P[1], P[2])
+        if monitor == "far":
+            _margin(ctx, op, np.array([max(spread, off)]), np.array([tol]))
         if spread > tol and (worst_eq is None or spread / tol > worst_eq[0]):
             worst_eq = (spread / tol, i, spread, tol, off)
         if off > tol and (worst_pl is None or off / tol > worst_pl[0]):
@@ -1133,6 +1155,10 @@ def planar_transport_pass(ctx, desc, rng):
     Q = surfaces.random_rotation(rng)
     sc = 10 ** rng.uniform(-2, 2)
     VB = (V @ Q.T) * sc + np.array([rng.uniform(-2, 2) for _ in range(3)]) * sc
+    if rng.random() < 0.5:
+        # the moved plane far from the origin: the transport is built from corner angles (edge vectors), so still no curvature
+        VB, _ = far_coordinates(VB, rng, rng.choice([3, 4, 5, 6]), False)
+        ctx.cls("planar_transport:far_copy")
     try:
         RB = geomq.SurfaceRef(VB, F)
     except (ZeroDivisionError, FloatingPointError, ValueError):
@@ -1143,6 +1169,108 @@ def planar_transport_pass(ctx, desc, rng):
         ex = {"_pt": "scv"}
         arr = call_quantity(ctx, envB, "parallel_transport_curvature", spec, rng.random() < 0.5, rng.random() < 0.5, None, ex, check_left=False)
         judge_surface(ctx, "rigid", "parallel_transport_curvature", ex, arr, RB, envB)
+
+
+FAR_REL = 2e-13
+FAR_DIRS = [(1, 0, 0), (0, 1, 0), (0, 0, 1), (1, 1, 0), (1, -1, 1), (-1, 0.5, 0.25), (0.5, -1, 1), (-1, -1, -1)]
+
+
+def far_coordinates(V, rng, e10, rotate):
+    """The mesh re-centred, optionally rotated, then translated by an exactly representable offset (power of two times a vector of
+    dyadic components) of magnitude ~10^e10 mesh sizes.  The ROUNDED result is the input: the reference is computed from it."""
+    Vc = V - V.mean(axis=0)
+    if rotate:
+        Vc = Vc @ surfaces.random_rotation(rng).T
+    size = float(np.max(np.ptp(Vc, axis=0)))
+    mag = 2.0 ** math.ceil(math.log2(size * 10.0 ** e10))
+    T = mag * np.array(rng.choice(FAR_DIRS), dtype=float)
+    return Vc + T, mag / size
+
+
+def far_env(ctx, kind, VF, elems, desc, R):
+    env = Env(ctx, kind, VF, elems, desc["vrows"], desc["irows"])
+    if not env.probe():
+        return None
+    env.rel = FAR_REL
+    env.pos_tol = 16 * EPS * R.maxabs + FAR_REL * R.lmax
+    return env
+
+
+def far_pass_surface(ctx, desc, V, F, rng):
+    """Far from the origin: every translation-invariant quantity must be as accurate as next to the origin, because differences of
+    stored coordinates are exact (Sterbenz) or correctly rounded: error <= C u cond(quantity), independent of |offset| / size.
+    Positions (midpoints, barycentres, circumcentres) are judged to 16 eps max|coordinate|."""
+    import mouette as M
+    for rotate in (False, True):
+        e10 = desc.get("far_exp", 5) if not rotate else 3 + (desc.get("far_exp", 5) + 2) % 5
+        VF, ratio = far_coordinates(V, rng, e10, rotate)
+        F2 = F
+        if rotate:
+            VF, F2, _ = surfaces.renumber(VF, F, rng)
+            F2 = surfaces.rotate_faces(F2, rng)
+        try:
+            R = geomq.SurfaceRef(VF, F2)
+        except (ZeroDivisionError, FloatingPointError, ValueError):
+            ctx.note("far_copy_not_admissible")
+            continue
+        if not _surface_gate(R, R.tri, far=True):
+            ctx.note("far_copy_not_admissible")
+            continue
+        env = far_env(ctx, "surface", VF, F2, desc, R)
+        if env is None:
+            continue
+        env.custom_normals = -R.normal
+        ctx.cls("far:offset/size=1e%d,%s" % (e10, "rotated" if rotate else "translated"))
+        for fn, spec in SURF_FUNCS.items():
+            if (spec[3] and not R.tri) or fn == "parallel_transport_curvature":
+                continue
+            for extras in variants(fn, rng, "meta"):
+                arr = call_quantity(ctx, env, fn, spec, rng.random() < 0.5, rng.random() < 0.5, None, extras, check_left=False)
+                judge_surface(ctx, "far", fn, extras, arr, R, env)
+        judge_curvature_matrices(ctx, "far", curvature_matrices_of(ctx, env), R, env)
+        A = M.attributes
+        items = [("mean_edge_length", R.mean_edge_length, FAR_REL * 10 * R.lmax)]
+        if R.all_area_regular:
+            items += [("total_area", R.total_area, FAR_REL * 10 * float(np.sum(R.fdiam ** 2))),
+                      ("mean_face_area", R.mean_face_area, FAR_REL * 10 * float(np.max(R.fdiam ** 2)))]
+        far_globals(ctx, env, items)
+
+
+def far_globals(ctx, env, items):
+    import mouette as M
+    for name, exp, tol in items:
+        ok, val = ctx.call(name, getattr(M.attributes, name), env.fresh(), abort=False)
+        if not ok:
+            continue
+        try:
+            err = abs(float(val) - exp)
+        except Exception:
+            err = float("inf")
+        _margin(ctx, name, np.array([err]), np.array([tol]))
+        ctx.check(err <= tol, "far", name, "differs_far_from_the_origin", "%s of a mesh far from the origin is off by %.3g (tolerance %.3g)" % (name, err, tol),
+                  got=repr(val), expected=exp)
+
+
+def far_pass_volume(ctx, desc, V, C, rng):
+    for rotate in (False, True):
+        e10 = desc.get("far_exp", 5) if not rotate else 3 + (desc.get("far_exp", 5) + 2) % 5
+        VF, ratio = far_coordinates(V, rng, e10, rotate)
+        try:
+            R = geomq.VolumeRef(VF, C)
+        except (ZeroDivisionError, FloatingPointError, ValueError):
+            continue
+        if R.lmin <= 0 or float(np.min(R.volume / R.cdiam ** 3)) < 1e-8:
+            ctx.note("far_copy_not_admissible")
+            continue
+        env = far_env(ctx, "volume", VF, C, desc, R)
+        if env is None:
+            continue
+        ctx.cls("far:offset/size=1e%d,%s" % (e10, "rotated" if rotate else "translated"))
+        for fn, spec in VOL_FUNCS.items():
+            arr = call_quantity(ctx, env, fn, spec, rng.random() < 0.5, rng.random() < 0.5, None, {}, check_left=False)
+            judge_volume(ctx, "far", fn, {}, arr, R, env)
+        far_globals(ctx, env, [("mean_edge_length", R.mean_edge_length, FAR_REL * 10 * R.lmax),
+                               ("mean_cell_volume", R.mean_cell_volume, FAR_REL * 10 * float(np.max(R.cdiam ** 3)))])
 
 
 def custom_normals_after_cached_normals(ctx, env, R, rng):
@@ -1318,6 +1446,7 @@ def run_surface(desc, ctx):
     custom_normals_after_cached_normals(ctx, env, R, rng)
     if desc.get("planar_pt"):
         planar_transport_pass(ctx, desc, rng)
+    far_pass_surface(ctx, desc, V, F, rng)
     if desc.get("source") == "nonconvex":
         face_rotations(ctx, env, R, rng, desc)
 
@@ -1474,6 +1603,7 @@ def run_volume(desc, ctx):
     globals_check(ctx, env, R, rng, "volume")
     interpolation_constants(ctx, env, rng, "volume")
     history_pass(ctx, env, R, VOL_FUNCS, rng, judge_volume)
+    far_pass_volume(ctx, desc, V, C, rng)
 
     def judgeable(fn, extras):
         if fn == "face_circumcenter" and R.tri_min_angle < math.radians(3.0):
